@@ -266,7 +266,7 @@ func (hrw *httpReadWriter) Write(ctx context.Context, rpc *Rpc) error {
 		return err
 	}
 
-	r, err := http.NewRequest("POST", "http://"+hrw.writeAddr, bytes.NewBuffer(data))
+	r, err := http.NewRequestWithContext(ctx, "POST", "http://"+hrw.writeAddr, bytes.NewBuffer(data))
 	if err != nil {
 		hrw.cancel()
 		return err
